@@ -42,5 +42,9 @@ for d in sorted(glob.glob("/verif/seeded/C*-*")):
     finally:
         sh("git checkout -- .", "/repo")
 sh("git checkout -- evidence", "/verif")
-if not only:
-    json.dump(res, open("/verif/seeded/RESULTS.json", "w"), indent=1)
+if only and os.path.exists("/verif/seeded/RESULTS.json"):
+    # a partial run replaces the entries of the seeds it ran
+    by = {r["seed"]: r for r in res}
+    old = json.load(open("/verif/seeded/RESULTS.json"))
+    res = sorted([by.pop(r["seed"], r) for r in old] + list(by.values()), key=lambda r: r["seed"])
+json.dump(res, open("/verif/seeded/RESULTS.json", "w"), indent=1)
